@@ -39,9 +39,11 @@ import (
 )
 
 var (
-	unit     = sdkmath.NewInt(1).MulRaw(1e18).MulRaw(100) // 100 FX = sdk.DefaultPowerReduction in fxcore
-	halfUnit = sdkmath.NewInt(1).MulRaw(1e18).MulRaw(50)
-	payKey   = []byte("verif/shares/pay") // observation register in the branch's transient store
+	powerUnit = sdkmath.NewInt(1).MulRaw(1e18).MulRaw(100) // 100 FX = sdk.DefaultPowerReduction in fxcore
+	payKey    = []byte("verif/shares/pay")                 // observation register in the branch's transient store
+	// phi = 0.111111111111111111: the fraction of a share one base token buys on a validator slashed by 10%
+	phiInt = sdkmath.NewIntFromUint64(111111111111111111)
+	e18    = sdkmath.NewInt(1).MulRaw(1e18)
 )
 
 const gasLimit = 5_000_000
@@ -52,6 +54,12 @@ type Consts struct {
 	InitShares map[string]map[string]int64 `json:"InitShares"`
 	// Drain: evaluate the "everybody withdraws and fully undelegates" oracle in every projection
 	Drain bool `json:"Drain"`
+	// Unit: base units per model unit (decimal string; default 100 FX = 1e20).  "1" in the family with
+	// fractional shares.
+	Unit string `json:"Unit"`
+	// PreSlash = "tenth": validator v1 is slashed by 10% of its power while the world is built, before any
+	// modelled delegation, so that one token buys 1.111111111111111111 shares.
+	PreSlash string `json:"PreSlash"`
 }
 
 type Adapter struct {
@@ -63,6 +71,8 @@ type Adapter struct {
 	tkey  storetypes.StoreKey
 	votes []abci.VoteInfo
 	debug bool
+	unit  sdkmath.Int
+	tok0  map[string]sdkmath.Int // validator tokens when the modelled delegators had none (PreSlash families)
 	// memo of the two expensive observation functions (crisis invariants, drain), keyed by a digest of the
 	// stores they can depend on (staking, distribution, bank, gov, ibc-transfer, mint, slashing, params) and
 	// the block header's height and time: byte-identical inputs give identical results.
@@ -80,7 +90,7 @@ func must(err error) {
 	}
 }
 
-func units(n int64) *big.Int { return unit.MulRaw(n).BigInt() }
+func (a *Adapter) units(n int64) *big.Int { return a.unit.MulRaw(n).BigInt() }
 
 // New builds the world of Shares.tla's Init: two bonded genesis validators (self-delegation 100 FX each),
 // amply funded delegators, and the InitShares delegations made through delegateV2.
@@ -88,7 +98,15 @@ func New(t *testing.T, c Consts) *Adapter {
 	sort.Strings(c.Delegator)
 	sort.Strings(c.Validator)
 	w := world.New(t, len(c.Validator))
-	a := &Adapter{W: w, C: c, val: map[string]sdk.ValAddress{}, self: map[string]sdkmath.LegacyDec{}, debug: os.Getenv("VERIF_DEBUG") != ""}
+	a := &Adapter{W: w, C: c, val: map[string]sdk.ValAddress{}, self: map[string]sdkmath.LegacyDec{}, debug: os.Getenv("VERIF_DEBUG") != "",
+		unit: powerUnit, tok0: map[string]sdkmath.Int{}}
+	if c.Unit != "" {
+		u, ok := sdkmath.NewIntFromString(c.Unit)
+		if !ok || !u.IsPositive() {
+			t.Fatalf("bad Unit %q", c.Unit)
+		}
+		a.unit = u
+	}
 	a.skey = w.App.GetKey(stakingtypes.StoreKey)
 	a.tkey = w.App.GetTKey(paramstypes.TStoreKey)
 	for _, n := range []string{"staking", "distribution", "bank", "gov", "transfer", "mint", "slashing", "params"} {
@@ -113,6 +131,26 @@ func New(t *testing.T, c Consts) *Adapter {
 		// what the chain has for every bonded validator once it has signed a block
 		must(w.App.SlashingKeeper.SetValidatorSigningInfo(ctx, cons, slashingtypes.NewValidatorSigningInfo(cons, ctx.BlockHeight(), 0, time.Unix(0, 0), false, 0)))
 		a.votes = append(a.votes, abci.VoteInfo{Validator: abci.Validator{Address: cons, Power: 1}, BlockIdFlag: 2})
+	}
+	if c.PreSlash == "tenth" {
+		// a block begins with evidence against v1: 10% of its power (100 FX self-delegation) is slashed
+		v := c.Validator[0]
+		val, err := w.App.StakingKeeper.GetValidator(ctx, a.val[v])
+		must(err)
+		cons, err := val.GetConsAddr()
+		must(err)
+		ctx = ctx.WithBlockHeight(ctx.BlockHeight() + 1).WithBlockTime(ctx.BlockTime().Add(5 * time.Second))
+		if _, err = w.App.StakingKeeper.Slash(ctx, cons, ctx.BlockHeight(), val.Tokens.Quo(powerUnit).Int64(), sdkmath.LegacyNewDecWithPrec(1, 1)); err != nil {
+			panic(err)
+		}
+		ctx = ctx.WithBlockHeight(ctx.BlockHeight() + 1).WithBlockTime(ctx.BlockTime().Add(5 * time.Second))
+	} else if c.PreSlash != "" {
+		t.Fatalf("unknown PreSlash %q", c.PreSlash)
+	}
+	for _, v := range c.Validator {
+		val, err := w.App.StakingKeeper.GetValidator(ctx, a.val[v])
+		must(err)
+		a.tok0[v] = val.Tokens
 	}
 	for _, d := range c.Delegator {
 		w.Fund(ctx, a.acc(d), 1_000_000)
@@ -195,21 +233,21 @@ func (a *Adapter) Apply(ctx sdk.Context, op graph.Op) (sdk.Context, string) {
 	ok := false
 	switch op.Name() {
 	case "Delegate":
-		data, err := precompile.NewDelegateV2Method(nil).PackInput(fxstakingtypes.DelegateV2Args{Validator: a.val[v].String(), Amount: units(n)})
+		data, err := precompile.NewDelegateV2Method(nil).PackInput(fxstakingtypes.DelegateV2Args{Validator: a.val[v].String(), Amount: a.units(n)})
 		ok = a.call(ctx, d, data, err)
 	case "Undelegate":
-		data, err := precompile.NewUndelegateV2Method(nil).PackInput(fxstakingtypes.UndelegateV2Args{Validator: a.val[v].String(), Amount: units(n)})
+		data, err := precompile.NewUndelegateV2Method(nil).PackInput(fxstakingtypes.UndelegateV2Args{Validator: a.val[v].String(), Amount: a.units(n)})
 		ok = a.call(ctx, d, data, err)
 	case "Redelegate":
 		data, err := precompile.NewRedelegateV2Method(nil).PackInput(fxstakingtypes.RedelegateV2Args{
-			ValidatorSrc: a.val[v].String(), ValidatorDst: a.val[op.Str("w")].String(), Amount: units(n)})
+			ValidatorSrc: a.val[v].String(), ValidatorDst: a.val[op.Str("w")].String(), Amount: a.units(n)})
 		ok = a.call(ctx, d, data, err)
 	case "Withdraw":
 		data, err := precompile.NewWithdrawMethod(nil).PackInput(fxstakingtypes.WithdrawArgs{Validator: a.val[v].String()})
 		ok = a.call(ctx, d, data, err)
 	case "Approve":
 		data, err := precompile.NewApproveSharesMethod(nil).PackInput(fxstakingtypes.ApproveSharesArgs{
-			Validator: a.val[v].String(), Spender: a.eth(op.Str("t")), Shares: units(n)})
+			Validator: a.val[v].String(), Spender: a.eth(op.Str("t")), Shares: a.units(n)})
 		ok = a.call(ctx, d, data, err)
 	case "Transfer", "TransferFrom":
 		f, t := op.Str("f"), op.Str("t")
@@ -235,10 +273,10 @@ func (a *Adapter) Apply(ctx sdk.Context, op graph.Op) (sdk.Context, string) {
 		var err error
 		if op.Name() == "Transfer" {
 			data, err = precompile.NewTransferSharesMethod(nil).PackInput(fxstakingtypes.TransferSharesArgs{
-				Validator: a.val[v].String(), To: a.eth(t), Shares: units(n)})
+				Validator: a.val[v].String(), To: a.eth(t), Shares: a.units(n)})
 		} else {
 			data, err = precompile.NewTransferFromSharesMethod(nil).PackInput(fxstakingtypes.TransferFromSharesArgs{
-				Validator: a.val[v].String(), From: a.eth(f), To: a.eth(t), Shares: units(n)})
+				Validator: a.val[v].String(), From: a.eth(f), To: a.eth(t), Shares: a.units(n)})
 		}
 		ok = a.call(ctx, d, data, err)
 		if ok {
@@ -285,7 +323,7 @@ func (a *Adapter) Apply(ctx sdk.Context, op graph.Op) (sdk.Context, string) {
 		nctx := ctx.WithBlockHeight(ctx.BlockHeight() + 1).WithBlockTime(ctx.BlockTime().Add(5 * time.Second))
 		cons, err := val.GetConsAddr()
 		must(err)
-		power := val.Tokens.Quo(unit).Int64()
+		power := val.Tokens.Quo(powerUnit).Int64()
 		if _, err = w.App.StakingKeeper.Slash(nctx, cons, nctx.BlockHeight(), power, sdkmath.LegacyNewDecWithPrec(5, 1)); err != nil {
 			panic(err)
 		}
@@ -299,10 +337,33 @@ func (a *Adapter) Apply(ctx sdk.Context, op graph.Op) (sdk.Context, string) {
 	return ctx, "ok"
 }
 
-// scaled returns x/u as an integer and whether the division is exact.
+// scaledDec returns x/u as an integer and whether the division is exact.
 func scaledDec(x sdkmath.LegacyDec, u sdkmath.Int) (int64, bool) {
 	q := x.QuoInt(u)
 	return q.TruncateInt64(), q.IsInteger() && !x.IsNegative()
+}
+
+// split writes a share quantity x as w*unit + k*phi (phi = 0.111111111111111111 base shares) with small
+// non-negative integers w, k; k can only be non-zero when the unit is one base share.  ok=false when x is not
+// of that form (then w is the truncated quotient).
+func (a *Adapter) split(x sdkmath.LegacyDec) (w, k int64, ok bool) {
+	if x.IsNegative() {
+		return 0, 0, false
+	}
+	if q := x.QuoInt(a.unit); q.IsInteger() {
+		return q.TruncateInt64(), 0, true
+	}
+	if !a.unit.Equal(sdkmath.OneInt()) {
+		return x.QuoInt(a.unit).TruncateInt64(), 0, false
+	}
+	// X = x*1e18 = w*1e18 + k*phiInt and 1e18 = 9*phiInt + 1, so X = w (mod phiInt)
+	X := sdkmath.NewIntFromBigInt(x.BigInt())
+	wi := X.Mod(phiInt)
+	rest := X.Sub(wi.Mul(e18))
+	if rest.IsNegative() || !rest.Mod(phiInt).IsZero() || !wi.IsInt64() || !rest.Quo(phiInt).IsInt64() || rest.Quo(phiInt).Int64() > 1000 {
+		return x.TruncateInt64(), 0, false
+	}
+	return wi.Int64(), rest.Quo(phiInt).Int64(), true
 }
 
 func scaledInt(x, u sdkmath.Int) (int64, bool) {
@@ -320,19 +381,26 @@ func (a *Adapter) Project(ctx sdk.Context) any {
 		}
 	}
 	shares, accrued, recv, ubd := map[string]map[string]int64{}, map[string]map[string]bool{}, map[string]map[string]bool{}, map[string]map[string]int64{}
+	frac, valFrac, fden := map[string]map[string]int64{}, map[string]int64{}, map[string]int64{}
 	valShares, valTokens, den := map[string]int64{}, map[string]int64{}, map[string]int64{}
 	allow := map[string]map[string]map[string]int64{}
 	st := ctx.KVStore(a.skey)
+	// The observation functions (rewards owed, crisis invariants, drain) are evaluated in the NEXT block (height
+	// + 1, no begin-blocker): x/distribution skips its stake sanity check in the block in which a delegation's
+	// starting info was written, so damage done by the last operation only shows one block later.
+	octx, _ := ctx.CacheContext()
+	octx = octx.WithBlockHeight(ctx.BlockHeight() + 1).WithBlockTime(ctx.BlockTime().Add(5 * time.Second))
 	for _, d := range a.C.Delegator {
 		shares[d], accrued[d], recv[d], ubd[d] = map[string]int64{}, map[string]bool{}, map[string]bool{}, map[string]int64{}
+		frac[d] = map[string]int64{}
 		for _, v := range a.C.Validator {
 			var ok bool
-			shares[d][v] = 0
+			shares[d][v], frac[d][v] = 0, 0
 			if del, err := sk.GetDelegation(ctx, a.acc(d), a.val[v]); err == nil {
-				shares[d][v], ok = scaledDec(del.Shares, unit)
+				shares[d][v], frac[d][v], ok = a.split(del.Shares)
 				note(ok, "shares %s %s %s", d, v, del.Shares)
 			}
-			o, computable := a.owed(ctx, d, v)
+			o, computable := a.owed(octx, d, v)
 			note(computable, "rewards %s %s uncomputable", d, v)
 			accrued[d][v] = o.IsPositive()
 			has, err := sk.HasReceivingRedelegation(ctx, a.acc(d), a.val[v])
@@ -344,7 +412,7 @@ func (a *Adapter) Project(ctx sdk.Context) any {
 				for _, e := range u.Entries {
 					tot = tot.Add(e.Balance)
 				}
-				ubd[d][v], ok = scaledInt(tot, unit)
+				ubd[d][v], ok = scaledInt(tot, a.unit)
 				note(ok, "ubd %s %s %s", d, v, tot)
 			}
 		}
@@ -353,15 +421,27 @@ func (a *Adapter) Project(ctx sdk.Context) any {
 		val, err := sk.GetValidator(ctx, a.val[v])
 		must(err)
 		var ok bool
-		valShares[v], ok = scaledDec(val.DelegatorShares.Sub(a.self[v]), unit)
+		valShares[v], valFrac[v], ok = a.split(val.DelegatorShares.Sub(a.self[v]))
 		note(ok, "valShares %s %s", v, val.DelegatorShares)
-		// tokens backing the modelled delegators' shares = all tokens - tokens of the genesis self-delegation
-		mod := sdkmath.LegacyNewDecFromInt(val.Tokens).Sub(val.TokensFromShares(a.self[v]))
-		valTokens[v], ok = scaledDec(mod, halfUnit)
+		// tokens backing the modelled delegators' shares, in HALF units
+		var mod sdkmath.LegacyDec
+		if a.C.PreSlash != "" {
+			// (no slash after the world is built in these families) all tokens - tokens before any modelled delegation
+			mod = sdkmath.LegacyNewDecFromInt(val.Tokens.Sub(a.tok0[v]))
+		} else {
+			// all tokens - tokens of the genesis self-delegation
+			mod = sdkmath.LegacyNewDecFromInt(val.Tokens).Sub(val.TokensFromShares(a.self[v]))
+		}
+		valTokens[v], ok = scaledDec(mod.MulInt64(2), a.unit)
 		note(ok, "valTokens %s %s", v, val.Tokens)
-		den[v] = 0
+		// exchange rate = what one unit of tokens buys
+		den[v], fden[v] = 0, 0
 		if val.Tokens.IsPositive() {
-			den[v], ok = scaledDec(val.DelegatorShares, val.Tokens)
+			buys, err := val.SharesFromTokens(a.unit)
+			must(err)
+			var w, k int64
+			w, k, ok = a.split(buys)
+			den[v], fden[v] = w, k
 			note(ok, "rate %s %s/%s", v, val.DelegatorShares, val.Tokens)
 		}
 		allow[v] = map[string]map[string]int64{}
@@ -369,7 +449,7 @@ func (a *Adapter) Project(ctx sdk.Context) any {
 			allow[v][o] = map[string]int64{}
 			for _, s := range a.C.Delegator {
 				x := new(big.Int).SetBytes(st.Get(fxstakingtypes.GetAllowanceKey(a.val[v], a.acc(o), a.acc(s))))
-				allow[v][o][s], ok = scaledInt(sdkmath.NewIntFromBigInt(x), unit)
+				allow[v][o][s], ok = scaledInt(sdkmath.NewIntFromBigInt(x), a.unit)
 				note(ok, "allow %s %s %s %s", v, o, s, x)
 			}
 		}
@@ -378,12 +458,12 @@ func (a *Adapter) Project(ctx sdk.Context) any {
 	if len(inexact) > 0 {
 		exact = strings.Join(inexact, ";")
 	}
-	dg := a.digest(ctx)
+	dg := a.digest(octx)
 	obs, hit := a.memo[dg]
 	if !hit {
-		obs = [2]string{a.invariants(ctx), "ok"}
+		obs = [2]string{a.invariants(octx), "ok"}
 		if a.C.Drain {
-			obs[1] = a.drain(ctx)
+			obs[1] = a.drain(octx)
 		}
 		a.memo[dg] = obs
 	}
@@ -391,6 +471,7 @@ func (a *Adapter) Project(ctx sdk.Context) any {
 		"shares": shares, "valShares": valShares, "valTokens": valTokens, "den": den, "allow": allow,
 		"accrued": accrued, "recv": recv, "ubd": ubd,
 		"inv": obs[0], "pay": a.getPay(ctx), "drain": obs[1], "exact": exact,
+		"frac": frac, "valFrac": valFrac, "fden": fden,
 	}
 }
 
